@@ -980,6 +980,8 @@ func areaMetrics(c *Ctx) {
 	areaMetricsQ(c)
 	// ---- earlier results are not disturbed by later calls (area_metrics_alias.go) ----
 	areaMetricsAlias(c)
+	// ---- CID-keyed CFF fonts: per-FD matrices (area_metrics_cid.go) ----
+	areaMetricsCID(c)
 
 	// ---- whole fonts: derived fields inside (*sfnt.Font).Write output ----
 	for i := 0; i < n/5+4; i++ {
